@@ -128,6 +128,9 @@ type interpreter struct {
 	concurrent   bool
 	symSizes     int
 	ropeMode     bool
+	timers       []*timer
+	now          int64
+	timerFires   int
 	preempts     int
 	idleWait     []*thread
 	stalled      []*thread
